@@ -689,7 +689,9 @@ Proof.
 Qed.
 
 Lemma ctl_can_go : forall m m1, ctl m1 = ctl m -> can_go m1 = can_go m.
-Proof. intros m m1 H. unfold ctl in H. inv H. unfold can_go, is_done. congruence. Qed.
+Proof.
+  intros m m1 H. unfold ctl in H. injection H as H1 H2 H3. unfold can_go, is_done. rewrite H1, H2, H3. reflexivity.
+Qed.
 
 (* one patched step, seen from resume: either resume stops in exactly the state the step reached,
    or resume from the reached state finishes what resume from the original state would have done *)
@@ -730,3 +732,223 @@ Proof.
   - inv H. cbn [sim_res] in Hs. destruct Hs as [k Hk]. exists k. intro f.
     unfold api_resume, run_and_pop. rewrite Hr, Ht, He. cbn [negb Z.eqb E_none]. rewrite Hk. reflexivity.
 Qed.
+
+Lemma complete_S : forall n fuel fixed p e m,
+  complete (S n) fuel fixed p e m =
+  if can_go m then match api_resume fuel fixed p e m with Ok m1 => complete n fuel fixed p e m1 | other => other end else Ok m.
+Proof. reflexivity. Qed.
+
+Lemma complete_mono : forall n f fixed p e m r, complete n f fixed p e m = r -> r <> OutOfFuel ->
+  forall n' f', complete (n' + n) (f' + f) fixed p e m = r.
+Proof.
+  induction n as [|n IH]; intros f fixed p e m r H Hr n' f'; [cbn in H; subst r; exfalso; apply Hr; reflexivity|].
+  rewrite Nat.add_succ_r. rewrite complete_S in *.
+  destruct (can_go m); [|assumption].
+  destruct (api_resume f fixed p e m) as [m1|c|] eqn:E.
+  - rewrite (api_resume_mono _ _ _ _ _ _ E) by discriminate. apply IH; assumption.
+  - rewrite (api_resume_mono _ _ _ _ _ _ E) by discriminate. assumption.
+  - subst r. exfalso. apply Hr. reflexivity.
+Qed.
+
+Lemma api_resume_det : forall f1 f2 fixed p e m r1 r2,
+  api_resume f1 fixed p e m = r1 -> api_resume f2 fixed p e m = r2 -> r1 <> OutOfFuel -> r2 <> OutOfFuel -> r1 = r2.
+Proof.
+  intros f1 f2 fixed p e m r1 r2 H1 H2 Hr1 Hr2.
+  pose proof (api_resume_mono _ _ _ _ _ _ H1 Hr1 f2) as A. pose proof (api_resume_mono _ _ _ _ _ _ H2 Hr2 f1) as B.
+  rewrite Nat.add_comm in B. congruence.
+Qed.
+
+Section Compose.
+  Variables (p : prog) (e : env).
+
+  Definition finishes (m : machine) (r : result machine) : Prop := exists n f, complete n f true p e m = r.
+
+  (* one guarded step does not change where the program ends *)
+  Lemma step_finishes_fwd : forall m m1 r, can_go m = true -> api_step true p e m = Ok m1 -> r <> OutOfFuel ->
+    finishes m1 r -> finishes m r.
+  Proof.
+    intros m m1 r Hgo Hs Hr (n & f & Hc).
+    destruct (api_step_sim p e m m1 Hgo Hs) as [[k Hk]|(Hgo1 & k & Hk)].
+    - exists (S n), (S k + f)%nat. rewrite complete_S, Hgo, Hk.
+      apply (complete_mono _ _ _ _ _ _ _ Hc Hr 0%nat (S k)).
+    - destruct n as [|n]; [cbn in Hc; subst r; exfalso; apply Hr; reflexivity|].
+      rewrite complete_S, Hgo1 in Hc.
+      exists (S n), (S k + f)%nat. rewrite complete_S, Hgo, Hk.
+      destruct (api_resume f true p e m1) as [mx|c|] eqn:E; [|assumption|assumption].
+      apply (complete_mono _ _ _ _ _ _ _ Hc Hr 0%nat (S k)).
+  Qed.
+
+  Lemma step_finishes_bwd : forall m m1 r, can_go m = true -> api_step true p e m = Ok m1 -> r <> OutOfFuel ->
+    finishes m r -> finishes m1 r.
+  Proof.
+    intros m m1 r Hgo Hs Hr (n & f & Hc).
+    destruct n as [|n]; [cbn in Hc; subst r; exfalso; apply Hr; reflexivity|].
+    rewrite complete_S, Hgo in Hc.
+    destruct (api_resume f true p e m) as [mx|c|] eqn:E.
+    - destruct (api_step_sim p e m m1 Hgo Hs) as [[k Hk]|(Hgo1 & k & Hk)].
+      + assert (Ok mx = Ok m1) by (eapply api_resume_det; [exact E|apply (Hk 0%nat)|discriminate|discriminate]).
+        injection H as H. rewrite H in Hc. exists n, f. exact Hc.
+      + exists (S n), f. rewrite complete_S, Hgo1.
+        pose proof (api_resume_mono _ _ _ _ _ _ E ltac:(discriminate) (S k)) as A. rewrite Hk in A. rewrite A. assumption.
+    - subst r. destruct (api_step_sim p e m m1 Hgo Hs) as [[k Hk]|(Hgo1 & k & Hk)].
+      + exfalso. assert (Fault c = Ok m1) by (eapply api_resume_det; [exact E|apply (Hk 0%nat)|discriminate|discriminate]).
+        discriminate.
+      + exists 1%nat, f. rewrite complete_S, Hgo1.
+        pose proof (api_resume_mono _ _ _ _ _ _ E ltac:(discriminate) (S k)) as A. rewrite Hk in A. rewrite A. reflexivity.
+    - subst r. exfalso. apply Hr. reflexivity.
+  Qed.
+
+  Lemma resume_finishes_fwd : forall f0 m m1 r, can_go m = true -> api_resume f0 true p e m = Ok m1 -> r <> OutOfFuel ->
+    finishes m1 r -> finishes m r.
+  Proof.
+    intros f0 m m1 r Hgo Hs Hr (n & f & Hc).
+    exists (S n), (f + f0)%nat. rewrite complete_S, Hgo.
+    rewrite (api_resume_mono _ _ _ _ _ _ Hs) by discriminate.
+    replace (f + f0)%nat with (f0 + f)%nat by lia. apply (complete_mono _ _ _ _ _ _ _ Hc Hr 0%nat f0).
+  Qed.
+
+  Lemma resume_finishes_bwd : forall f0 m m1 r, can_go m = true -> api_resume f0 true p e m = Ok m1 -> r <> OutOfFuel ->
+    finishes m r -> finishes m1 r.
+  Proof.
+    intros f0 m m1 r Hgo Hs Hr (n & f & Hc).
+    destruct n as [|n]; [cbn in Hc; subst r; exfalso; apply Hr; reflexivity|].
+    rewrite complete_S, Hgo in Hc.
+    destruct (api_resume f true p e m) as [mx|c|] eqn:E.
+    - assert (Ok mx = Ok m1) by (eapply api_resume_det; [exact E|exact Hs|discriminate|discriminate]).
+      injection H as H. rewrite H in Hc. exists n, f. exact Hc.
+    - exfalso. assert (Fault c = Ok m1) by (eapply api_resume_det; [exact E|exact Hs|discriminate|discriminate]). discriminate.
+    - subst r. exfalso. apply Hr. reflexivity.
+  Qed.
+
+  (* (a) any split of the execution into guarded step / resume segments ends in the same final outcome *)
+  Theorem pause_resume_compose_proof : forall segs m m1 r, r <> OutOfFuel ->
+    apply_segs true p e segs m = Ok m1 -> (finishes m r <-> finishes m1 r).
+  Proof.
+    induction segs as [|s segs IH]; intros m m1 r Hr H; cbn [apply_segs] in H.
+    - inv H. tauto.
+    - destruct (apply_seg true p e s m) as [m2|c|] eqn:Es; try discriminate.
+      specialize (IH m2 m1 r Hr H).
+      assert (finishes m r <-> finishes m2 r); [|tauto].
+      unfold apply_seg in Es. destruct (can_go m) eqn:Hgo; [|inv Es; tauto].
+      destruct s as [|f0].
+      + split; [apply step_finishes_bwd | apply step_finishes_fwd]; assumption.
+      + split; [eapply resume_finishes_bwd | eapply resume_finishes_fwd]; eassumption.
+  Qed.
+End Compose.
+
+Lemma apply_segs_app : forall fixed p e a b m,
+  apply_segs fixed p e (a ++ b) m = match apply_segs fixed p e a m with Ok m1 => apply_segs fixed p e b m1 | other => other end.
+Proof.
+  induction a as [|s a IH]; intros b m; cbn [apply_segs app]; [reflexivity|].
+  destruct (apply_seg fixed p e s m); try reflexivity. apply IH.
+Qed.
+
+Lemma iter_step_add : forall fixed p e k1 k2 m m1,
+  iter_step fixed p e k1 m = Ok m1 -> iter_step fixed p e (k1 + k2) m = iter_step fixed p e k2 m1.
+Proof.
+  intros fixed p e k1 k2 m m1 H. unfold iter_step in *. rewrite repeat_app, apply_segs_app, H. reflexivity.
+Qed.
+
+Section Iterated.
+  Variables (p : prog) (e : env).
+
+  Lemma resume_by_steps : forall f m mx, can_go m = true -> api_resume f true p e m = Ok mx ->
+    exists k, iter_step true p e k m = Ok mx.
+  Proof.
+    induction f as [f IH] using lt_wf_ind. intros m mx Hgo Hr.
+    destruct (api_step true p e m) as [m1|c|] eqn:Es.
+    - destruct (api_step_sim p e m m1 Hgo Es) as [[k Hk]|(Hgo1 & k & Hk)].
+      + assert (Ok mx = Ok m1) by (eapply api_resume_det; [exact Hr|apply (Hk 0%nat)|discriminate|discriminate]).
+        injection H as ->. exists 1%nat. unfold iter_step. cbn [repeat apply_segs]. unfold apply_seg. rewrite Hgo, Es. reflexivity.
+      + (* resume needs strictly less fuel from m1 *)
+        destruct (Nat.le_gt_cases f (S k)) as [Hle|Hgt].
+        * exfalso. pose proof (Hk 0%nat) as H0. rewrite Nat.add_0_r in H0.
+          assert (Hoof : api_resume 0 true p e m1 = OutOfFuel).
+          { destruct (can_go_inv m1 Hgo1) as (Hr1 & (t & ts & Ht) & He1).
+            unfold api_resume, run_and_pop. rewrite Hr1, Ht, He1. reflexivity. }
+          rewrite Hoof in H0.
+          pose proof (api_resume_mono _ _ _ _ _ _ Hr ltac:(discriminate) (S k - f)%nat) as A.
+          replace (S k - f + f)%nat with (S k) in A by lia. congruence.
+        * pose proof (Hk (f - S k)%nat) as H1. replace (S k + (f - S k))%nat with f in H1 by lia.
+          rewrite Hr in H1. symmetry in H1.
+          destruct (IH (f - S k)%nat ltac:(lia) m1 mx Hgo1 H1) as [k' Hk'].
+          exists (1 + k')%nat. erewrite iter_step_add; [exact Hk'|].
+          unfold iter_step. cbn [repeat apply_segs]. unfold apply_seg. rewrite Hgo, Es. reflexivity.
+    - exfalso. destruct (api_step_fault_sim p e m c Hgo Es) as [k Hk].
+      assert (Ok mx = Fault c) by (eapply api_resume_det; [exact Hr|apply (Hk 0%nat)|discriminate|discriminate]). discriminate.
+    - exfalso. eapply step_total_proof; eassumption.
+  Qed.
+
+  (* (a) running to completion (resuming through pauses) = iterating single steps from the same state *)
+  Theorem run_is_iterated_step_proof : forall n f m mf,
+    complete n f true p e m = Ok mf -> exists k, iter_step true p e k m = Ok mf.
+  Proof.
+    induction n as [|n IH]; intros f m mf H; [discriminate|].
+    rewrite complete_S in H. destruct (can_go m) eqn:Hgo.
+    - destruct (api_resume f true p e m) as [mx|c|] eqn:Er; try discriminate.
+      destruct (resume_by_steps f m mx Hgo Er) as [k1 Hk1]. destruct (IH f mx mf H) as [k2 Hk2].
+      exists (k1 + k2)%nat. erewrite iter_step_add; eassumption.
+    - inv H. exists 0%nat. reflexivity.
+  Qed.
+
+  (* ... and stepping any further leaves that final state alone *)
+  Lemma complete_final : forall n f fixed m mf, complete n f fixed p e m = Ok mf -> can_go mf = false.
+  Proof.
+    induction n as [|n IH]; intros f fixed m mf H; [discriminate|].
+    rewrite complete_S in H. destruct (can_go m) eqn:Hgo; [|inv H; assumption].
+    destruct (api_resume f fixed p e m); try discriminate. eapply IH; eassumption.
+  Qed.
+
+  Lemma iter_step_stuck : forall fixed k m, can_go m = false -> iter_step fixed p e k m = Ok m.
+  Proof.
+    induction k as [|k IH]; intros m H; [reflexivity|].
+    unfold iter_step in *. cbn [repeat apply_segs]. unfold apply_seg. rewrite H. apply IH. assumption.
+  Qed.
+End Iterated.
+
+(* ================================================================== 6. the pinned tree: stepping is NOT equivalent to running *)
+From Coq Require Import String.
+Open Scope string_scope.
+
+Definition prog_do_loop := compile 64 4 16 (bytes "3 0 do i loop").
+Definition prog_exit := compile 64 16 16 (bytes ": f 10 -1 if exit then 20 ; f").
+
+(* `3 0 do i loop` with room for 4 cells: one call leaves 0 1 2; single-stepping never advances the loop
+   counter, pushes 0 until the stack is full and ends in stack_overflow — a state from which no step continues *)
+Theorem run_is_iterated_step_refuted_proof :
+  exists p, prog_do_loop = COk p /\
+  exists m0 mf ms k,
+    api_begin p (mkEnv []) (init_machine p) = Ok m0 /\
+    complete 1 100 false p (mkEnv []) m0 = Ok mf /\ m_stack mf = [2; 1; 0] /\ m_err mf = E_none /\ is_done mf = true /\
+    iter_step false p (mkEnv []) k m0 = Ok ms /\ can_go ms = false /\ m_err ms = E_overflow /\ m_stack ms = [0; 0; 0; 0].
+Proof.
+  eexists. split; [vm_compute; reflexivity|].
+  eexists. eexists. eexists. exists 13%nat.
+  repeat split; vm_compute; reflexivity.
+Qed.
+
+(* `exit` taken while single-stepping does not leave the word *)
+Theorem step_exit_refuted_proof :
+  exists p, prog_exit = COk p /\
+  exists m0 mf ms k,
+    api_begin p (mkEnv []) (init_machine p) = Ok m0 /\
+    complete 1 100 false p (mkEnv []) m0 = Ok mf /\ m_stack mf = [10] /\ is_done mf = true /\
+    iter_step false p (mkEnv []) k m0 = Ok ms /\ is_done ms = true /\ m_err ms = E_none /\ m_stack ms = [20; 10].
+Proof.
+  eexists. split; [vm_compute; reflexivity|].
+  eexists. eexists. eexists. exists 8%nat.
+  repeat split; vm_compute; reflexivity.
+Qed.
+
+(* with the patch both witnesses agree with the one-call result *)
+Example patched_witnesses :
+  (exists p, prog_do_loop = COk p /\ exists m0 mf,
+     api_begin p (mkEnv []) (init_machine p) = Ok m0 /\ complete 1 100 true p (mkEnv []) m0 = Ok mf /\
+     iter_step true p (mkEnv []) 30 m0 = Ok mf /\ m_stack mf = [2; 1; 0]) /\
+  (exists p, prog_exit = COk p /\ exists m0 mf,
+     api_begin p (mkEnv []) (init_machine p) = Ok m0 /\ complete 1 100 true p (mkEnv []) m0 = Ok mf /\
+     iter_step true p (mkEnv []) 30 m0 = Ok mf /\ m_stack mf = [10]).
+Proof.
+  split; (eexists; split; [vm_compute; reflexivity|]; eexists; eexists; repeat split; vm_compute; reflexivity).
+Qed.
+Close Scope string_scope.
